@@ -66,12 +66,15 @@ def repo_source_hash() -> str:
 def expand_example(pkg: str) -> str:
     """path of rustc's own macro expansion of example crate `pkg`, built from REPO's current working tree"""
     os.makedirs(EXPAND_CACHE, exist_ok=True)
-    out = os.path.join(EXPAND_CACHE, f"{pkg}-{repo_source_hash()}.rs")
+    out = os.path.join(EXPAND_CACHE, f"{pkg}-{hashlib.sha256(os.path.abspath(REPO).encode()).hexdigest()[:8]}-{repo_source_hash()}.rs")
     if os.path.exists(out) and os.path.getsize(out) > 0:
         return out
     env = dict(os.environ)
+    # one target directory per source tree: cargo's freshness check is path/mtime based, so two different copies of the
+    # repository must never share build artefacts (a proc-macro crate built from a modified copy would be reused)
+    tdir = os.path.join(EXPAND_TARGET, hashlib.sha256(os.path.abspath(REPO).encode()).hexdigest()[:12])
     env.update({"RUSTUP_TOOLCHAIN": "stable-x86_64-unknown-linux-gnu", "RUSTC_BOOTSTRAP": "1", "CARGO_NET_OFFLINE": "true",
-                "CARGO_TARGET_DIR": EXPAND_TARGET})
+                "CARGO_TARGET_DIR": tdir})
     p = subprocess.run(["cargo", "rustc", "--offline", "-p", pkg, "--lib", "--profile", "check", "--", "-Zunpretty=expanded"],
                        cwd=REPO, env=env, capture_output=True, text=True)
     if p.returncode != 0 or "fn " not in p.stdout:
